@@ -588,6 +588,28 @@ func runAPICrash(c *sim.Ctx) {
 	a := newAPINode(c, cfg, 2+t.Int("api-blocks", 5))
 	defer a.close()
 	pub := a.w.nodes[0]
+	// peers may hand the node rival spends of one output: both sit in the pool until a block decides
+	var rivalOf []string
+	if ids := a.w.ownedUnspents(pub.m); len(ids) > 0 && t.Chance("rival-spends", 2, 3) {
+		id := ids[t.Int("rival-output", len(ids))]
+		u := pub.m.Unspent[id]
+		if h, ov, inter := model.AccruedHours(u, pub.m.Head().Head.Time); !ov && !inter && h.IsUint64() && h.Uint64() >= 4 {
+			n := 2 + t.Int("rival-count", 2)
+			for k := 0; k < n; k++ {
+				burn := uint64(pub.m.Cfg.Unconfirmed.BurnFactor)
+				fee := (h.Uint64() + burn - 1) / burn
+				tx, ok := a.w.mkSpendOf(pub.m, []model.Hash{id}, h.Uint64()-fee-uint64(k)%(h.Uint64()-fee+1))
+				if !ok {
+					break
+				}
+				if _, _, err := pub.v.InjectForeignTransaction(cTxn(&tx)); err == nil {
+					pub.m.InjectForeign(&tx, pub.m.Cfg.Unconfirmed)
+					c.Count("fault.rival_spends_pooled")
+				}
+			}
+			rivalOf = append(rivalOf, hex.EncodeToString(id[:]), addrString(a.w, u.Addr))
+		}
+	}
 	// live material for parameters
 	var addrs, uxids, txids, rawtxs []string
 	for _, k := range a.w.clients {
@@ -706,7 +728,50 @@ func runAPICrash(c *sim.Ctx) {
 			addParam(p, v)
 		}
 		q := apiReq{method: method, uri: rt.uri, host: apiHost}
-		if strings.HasPrefix(rt.uri, "/api/v2/") && method != "GET" {
+		if (rt.uri == "/api/v2/transaction" || rt.uri == "/api/v1/wallet/transaction") && method == "POST" && t.Chance("well-formed-create-txn", 2, 3) {
+			// a request of the documented shape, built from live state
+			body := map[string]interface{}{
+				"hours_selection":    []interface{}{map[string]string{"type": "auto", "mode": "share", "share_factor": []string{"0.5", "0", "1", "1.5", "x"}[t.Pick("share", 4, 1, 1, 1, 1)]}, map[string]string{"type": "manual"}, map[string]string{"type": "zzz"}}[t.Pick("hours-sel", 4, 3, 1)],
+				"ignore_unconfirmed": t.Bool("ignore-unconfirmed"),
+				"unsigned":           t.Bool("unsigned-bool"),
+			}
+			dst := map[string]string{"address": pick(addrs, "addr"), "coins": []string{"0.001", "1", "0", "100000000", "0.0000001", "-1", "abc"}[t.Pick("to-coins", 5, 3, 1, 1, 1, 1, 1)]}
+			if t.Bool("to-hours") {
+				dst["hours"] = []string{"0", "1", "18446744073709551615", "x"}[t.Pick("to-hours-v", 3, 3, 1, 1)]
+			}
+			body["to"] = []interface{}{dst}
+			if t.Chance("change-address", 1, 2) {
+				body["change_address"] = pick(addrs, "addr")
+			}
+			if rt.uri == "/api/v1/wallet/transaction" {
+				body["wallet_id"] = pick(append(a.walletNames, "nope.wlt"), "id")
+				if t.Chance("create-password", 1, 2) {
+					body["password"] = []string{"pw", "wrong", ""}[t.Int("create-pw", 3)]
+				}
+			}
+			switch t.Pick("create-source", 3, 3, 1, 1) {
+			case 0:
+				l := []string{pick(addrs, "addr")}
+				if len(rivalOf) == 2 && t.Bool("rival-address") {
+					l = []string{rivalOf[1]}
+				}
+				body["addresses"] = l
+			case 1:
+				l := []string{pick(append(uxids, "00"), "uxid")}
+				if len(rivalOf) == 2 && t.Bool("rival-uxout") {
+					l = []string{rivalOf[0]}
+				} else if t.Bool("two-uxouts") {
+					l = append(l, pick(uxids, "uxid"))
+				}
+				body[map[string]string{"/api/v2/transaction": "unspents", "/api/v1/wallet/transaction": "unspents"}[rt.uri]] = l
+			case 2:
+				body["addresses"] = []string{pick(addrs, "addr")}
+				body["unspents"] = []string{pick(uxids, "uxid")}
+			}
+			b, _ := json.Marshal(body)
+			q.ctype, q.body = "application/json", string(b)
+			c.Count("probe.well_formed_create_transaction_request")
+		} else if strings.HasPrefix(rt.uri, "/api/v2/") && method != "GET" {
 			q.ctype = "application/json"
 			switch t.Pick("json-shape", 6, 1, 1, 1) {
 			case 0:
@@ -775,6 +840,13 @@ func runAPICrash(c *sim.Ctx) {
 	if sum != a.w.genCoins {
 		c.Violate("node-unhealthy-after-requests", "supply", "after the request session the coin supply changed")
 	}
+}
+
+func addrString(w *world, a model.Addr) string {
+	if k, ok := w.byAddr[a]; ok {
+		return k.addr.String()
+	}
+	return ""
 }
 
 func trunc(s string, n int) string {
